@@ -735,8 +735,9 @@ fn deep_and_cyclic(ctx: &Ctx) {
 }
 
 pub fn run(ctx: &Ctx) {
-    ctx.set_rule("all ordered pairs of a pool of nested values (depth <= 3; literals, incremental key orders, spread / slice / concatenation / collected copies, aliases, shared children within and between operands, containers inside their comparand, functions nested) x {== != === !==}, transitivity/symmetry triples, compare / write / compare-again histories (1..3 writes of every kind: element, range, nested, op-assign, on either operand; expected values from the reference interpreter), random deeper pairs, chains 100..400 containers deep (equal copies, copies differing at one level, leaves of different types), self-containing operands against finite ones; oracle: structural comparison of the descriptions (mismatch-free => exactly the structural boolean; reachable mismatch => error naming a mismatching pair in operand order, or false when a difference may decide; never true, never a crash); values dumped before and after every batch of comparisons; two evaluations of every building expression (17 forms, 6 destructuring forms) give two containers, also when both are empty. Non-trivial = a pair with shared sub-structure, a non-literal construction history, or depth >= 2; distinct = distinct comparison expressions");
+    ctx.set_rule("all ordered pairs of a pool of nested values (depth <= 3; literals, incremental key orders, spread / slice / concatenation / collected copies, aliases, shared children within and between operands, containers inside their comparand, functions nested) x {== != === !==}, transitivity/symmetry triples, compare / write / compare-again histories (1..3 writes of every kind: element, range, nested, op-assign, on either operand; expected values from the reference interpreter), random deeper pairs, chains 100..400 containers deep (equal copies, copies differing at one level, leaves of different types), self-containing operands against finite ones; oracle: structural comparison of the descriptions (mismatch-free => exactly the structural boolean; reachable mismatch => error naming a mismatching pair in operand order, or false when a difference may decide; never true, never a crash); values dumped before and after every batch of comparisons; two evaluations of every building expression (17 forms, 6 destructuring forms) give two containers, also when both are empty. 9 set-ups that make one value reachable by two routes (two properties, property and variable, spread copy, rows of a grid, through a call) x `slot += v` through a property / index / element, once and twice: contents and all of == != === !== against the other route and an independent copy (reference run). Non-trivial = a pair with shared sub-structure, a non-literal construction history, or depth >= 2; distinct = distinct comparison expressions");
     ctx.replay_corpus(Some(&custom));
+    ctx.judge_all(crate::props::common::slot_op_assign_cases(ctx, "C10"), Via::Cli, None);
     let pool = build_pool(ctx.tier == Tier::Thorough);
     ctx.set_extra("pool_size", serde_json::json!(pool.entries.len()));
     pairs_check(ctx, &pool);
